@@ -236,6 +236,35 @@ func c04Mutants(rng *rand.Rand, w *core.World, orig []byte, other []byte) []muta
 		t.Data = append(append(append([]byte{}, t.Data[:j]...), []byte("null")...), t.Data[k:]...)
 		return true
 	})
+	// hardware-wallet signature: another hash named in the tag (the signature was made over a different digest)
+	add("prehash-tag-other", func(t *action.SignedTx) bool {
+		for i := range t.Signatures {
+			sg := t.Signatures[i].Signed
+			if len(sg) == 70 && bytes.HasPrefix(sg, []byte("SHA")) {
+				n := append([]byte{}, sg...)
+				for _, tag := range []string{"SHA256", "SHA512", "SHA384", "SHA224"} {
+					if string(sg[:6]) != tag {
+						copy(n, tag)
+						break
+					}
+				}
+				t.Signatures[i].Signed = n
+				return true
+			}
+		}
+		return false
+	})
+	// hardware-wallet signature with the tag stripped (verified as a plain signature over the message)
+	add("prehash-tag-stripped", func(t *action.SignedTx) bool {
+		for i := range t.Signatures {
+			sg := t.Signatures[i].Signed
+			if len(sg) == 70 && bytes.HasPrefix(sg, []byte("SHA")) {
+				t.Signatures[i].Signed = append([]byte{}, sg[6:]...)
+				return true
+			}
+		}
+		return false
+	})
 	add("sig-flip", func(t *action.SignedTx) bool {
 		if len(t.Signatures) == 0 || len(t.Signatures[0].Signed) == 0 {
 			return false
